@@ -326,43 +326,53 @@ def parseText (T : String) (cases : List ParseCase) (lower : Option (List (Strin
   simp [goData]
   rfl
 
-/-- what the trait loop writes inside the case of `v` -/
-def traitPart (v : Value) (t : TraitDesc) : List String :=
-  if t.parsable then (caseOne v t).flatMap (fun d => [", ", dynTok d]) else []
+/-- no instance is marked as a repeated Parse key (`validateParsableTraits`): no parsable trait earlier in the
+walk carries the same written constant on the same enum value.  This holds on the property's domain (parsable
+constants pairwise distinct).  The template data below binds `InstanceOf` to the model's `instanceOf`, which
+does not carry the marks; the model's Parse switch (`caseOne`) leaves a marked constant out, so the two agree
+exactly on descriptors without repeated keys (as `C12Tie.go_instanceOf_eq`). -/
+def NoRepeatedKey (ts : List TraitDesc) (vs : List Value) : Prop :=
+  ∀ t ∈ ts, ∀ v ∈ vs, ∀ r, t.instanceOf v = some r → repeatsParseKey {} ts vs.head? t r = false
 
-theorem traitPart_flat (ts : List TraitDesc) (v : Value) :
-    ts.flatMap (traitPart v) = (caseConsts ts v).flatMap (fun d => [", ", dynTok d]) := by
-  unfold caseConsts
-  induction ts with
+/-- what the trait loop writes inside the case of `v` -/
+def traitPart (ts : List TraitDesc) (first : Option Value) (v : Value) (t : TraitDesc) : List String :=
+  if t.parsable then (caseOne ts first v t).flatMap (fun d => [", ", dynTok d]) else []
+
+theorem traitPart_flat (ts : List TraitDesc) (first : Option Value) (v : Value) (l : List TraitDesc) :
+    l.flatMap (traitPart ts first v)
+      = (((l.filter (fun t => t.parsable)).map (caseOne ts first v)).flatten).flatMap (fun d => [", ", dynTok d]) := by
+  induction l with
   | nil => rfl
-  | cons t ts ih =>
+  | cons t l ih =>
     by_cases hp : t.parsable = true
     · simp [List.filter_cons, hp, traitPart, ih]
     · simp [List.filter_cons, hp, traitPart, ih]
 
 theorem go_render_parse_eq (r : Root) (i : Nat) (T : String) (vs : List Value) (ts : List TraitDesc)
-    (hv : r.values[i]? = some vs) (ht : r.traits[i]? = some ts) :
+    (hv : r.values[i]? = some vs) (ht : r.traits[i]? = some ts) (hnr : NoRepeatedKey ts vs) :
     renderSec r i T secParse
-      = some (parseText T (vs.map (caseOf ts)) (renderWith dedup r.opts T vs).lowerCases) := by
+      = some (parseText T (vs.map (caseOf ts vs.head?)) (renderWith dedup r.opts T vs).lowerCases) := by
   have h1 := values_at r i vs hv
   have h2 := traits_at r i ts ht
   tsimp [secParse, h1, h2]
-  rw [rangeLoop_mapped (g := fun v => caseText (caseOf ts v))]
+  rw [rangeLoop_mapped (g := fun v => caseText (caseOf ts vs.head? v))]
   · cases hci : r.opts.caseInsensitive
     · simp [parseText, lowerText, renderWith, hci, List.flatMap_map]
     · simp only [if_true]
       rw [rangeLoop_mapped (g := fun v => ["\n\t\t\tcase \"", asciiLower v.name, "\":\n\t\t\t\treturn ", v.name, ", nil"])]
       · simp [parseText, lowerText, renderWith, hci, List.flatMap_map]
       · intro j a _; simp
-  · intro j a _
+  · intro j a ha
     simp
-    rw [rangeLoop_mapped (g := traitPart a)]
-    · simp [caseText, caseOf, traitPart_flat]
-    · intro k t _
+    rw [rangeLoop_mapped (g := traitPart ts vs.head? a)]
+    · simp [caseText, caseOf, caseConsts, traitPart_flat]
+    · intro k t htm
       simp [traitPart, caseOne]
       cases t.parsable
       · simp
-      · cases t.instanceOf a <;> simp [goData]
+      · cases hin : t.instanceOf a with
+        | none => simp [goData]
+        | some row => simp [goData, hnr t htm a ha row hin]
 
 /-! ### the trait accessors: one method per trait descriptor, one `case` per row -/
 
@@ -441,7 +451,8 @@ generator accepts a definition, executing the extracted `Parse<T>` and accessor 
 and trait descriptors writes exactly the cases, the lower-case block and the accessor rows of its result. -/
 theorem go_template_genFull (r : Root) (f : FileDef) (t : TypeDecl) (i : Nat) (g : GenFull)
     (h : genFull r.opts f t = .ok g)
-    (hv : r.values[i]? = some (sortedValues f t.name)) (ht : r.traits[i]? = some g.traits) :
+    (hv : r.values[i]? = some (sortedValues f t.name)) (ht : r.traits[i]? = some g.traits)
+    (hnr : NoRepeatedKey g.traits (sortedValues f t.name)) :
     renderSec r i t.name secParse = some (parseText g.base.tname g.base.cases g.base.lowerCases) ∧
     renderSec r i t.name secAccessor = some (g.traits.flatMap (accessorText g.base.tname)) ∧
     renderSec r i t.name secString = some (stringText g.base.tname g.base.table) ∧
@@ -449,7 +460,7 @@ theorem go_template_genFull (r : Root) (f : FileDef) (t : TypeDecl) (i : Nat) (g
   obtain ⟨ts, _, hg, _⟩ := genFull_ok h
   subst hg
   refine ⟨?_, ?_, ?_, ?_⟩
-  · exact go_render_parse_eq r i t.name _ ts hv ht
+  · exact go_render_parse_eq r i t.name _ ts hv ht hnr
   · exact go_render_accessor_eq r i t.name _ ts hv ht
   · exact go_render_string_eq r i t.name _ ts hv ht (sortedValues_u64 f t.name)
   · exact go_render_isValid_eq r i t.name _ ts hv ht
@@ -558,7 +569,16 @@ example : ∃ rest, renderSec exRoot 0 "E" secParse
         "E", "(input any) (", "E", ", error) {\n\tswitch input {",
         "\n\tcase \"", "A", "\"", ", ", "\"x\"", ":\n\t\treturn ", "A", ", nil",
         "\n\tcase \"", "B", "\"", ":\n\t\treturn ", "B", ", nil"] ++ rest) := by
-  rw [go_render_parse_eq exRoot 0 "E" exVals exTraits rfl rfl]
+  rw [go_render_parse_eq exRoot 0 "E" exVals exTraits rfl rfl (by
+    intro t ht v hv r hr
+    simp [exTraits] at ht
+    subst ht
+    unfold repeatsParseKey
+    rw [List.any_eq_false]
+    intro t' ht'
+    simp [exTraits] at ht'
+    subst ht'
+    simp [String.lt_irrefl])]
   exact ⟨_, rfl⟩
 
 end C04TmplTie
